@@ -177,8 +177,8 @@ def check(ctx):
     def mirror(txt):
         return txt.replace("left", "\0").replace("right", "left").replace("\0", "right")
     rbc = [c for c in calls(lw, "RearrangeByColumn")]
-    lefts = [c for c in rbc if unparse(c.args[0]) == "left"]
-    rights = [c for c in rbc if unparse(c.args[0]) == "right"]
+    lefts = [c for c in rbc if eqv(c.args[0], "left")]
+    rights = [c for c in rbc if eqv(c.args[0], "right")]
     ctx.count("side_shuffles", len(rbc))
     ctx.floor("side_shuffles", 4, "RearrangeByColumn(left|right, ...) in Merge._lower")
     for cl in lefts:
@@ -204,7 +204,7 @@ def check(ctx):
     if md is None:
         raise AnchorMissing("Concat._monotonic_divisions")
     cmps = [n for n in ast.walk(md) if isinstance(n, ast.Compare) and "divisions[-1]" in unparse(n.left) and "divisions[0]" in unparse(n.comparators[0])]
-    ok = len(cmps) == 1 and isinstance(cmps[0].ops[0], ast.Lt) and unparse(cmps[0]) == "dfs[i].divisions[-1] < dfs[i + 1].divisions[0]"
+    ok = len(cmps) == 1 and isinstance(cmps[0].ops[0], ast.Lt) and eqv(cmps[0], "dfs[i].divisions[-1] < dfs[i + 1].divisions[0]")
     ctx.ob("ALG.concat.strict-divisions", md, "frames are chained by divisions only if last division < next first division (the last division is inclusive)", ok, "" if ok else f"comparison is `{unparse(cmps[0]) if cmps else None}`: with equality the boundary value lives in two partitions while the divisions promise one")
     T.argpos(ctx, lambda p: p.split("/")[-1] in ("_merge.py", "_merge_asof.py", "_concat.py"), "c39", floor=10)
     from ._claims import check_claims
